@@ -29,7 +29,10 @@ def tok_kind(t):
 def variants_generated(rnd, tree):
     """(label, class, text) layout variants of a generated tree"""
     out = []
-    rr = ref.Renderer(rnd=None)
+    # `not (x OP y)` nodes are written `x not OP y` for about half of them (one decision per node, shared by all variants)
+    as_infix = {}
+    infix_not = lambda a: as_infix.setdefault(id(a), rnd.random() < 0.5)
+    rr = ref.Renderer(rnd=None, infix_not=infix_not)
     toks = rr.tokens(tree)
     n = len(toks)
 
@@ -67,7 +70,7 @@ def variants_generated(rnd, tree):
         nodes = rnd.sample(nodes, 25)
     for nd in nodes:
         k = rnd.randint(1, 3) if rnd.random() < 0.93 else rnd.choice([16, 63, 64, 65, 127, 128, 129, 200])
-        text = ref.Renderer(wrap={id(nd): k}).render(tree)
+        text = ref.Renderer(wrap={id(nd): k}, infix_not=infix_not).render(tree)
         out.append(("paren", "paren:%d:%s" % (k, nd[0] if nd[0] not in ("bin", "un", "post") else nd[0] + " " + (nd[1] if nd[0] != "post" else nd[2])), text))
     return out
 
@@ -97,6 +100,18 @@ def run_shard(desc):
     if kind == "gen":
         for _ in range(n):
             t = tg.program(d=rnd.randint(1, 4))
+            if rnd.random() < 0.3:
+                # flat operator chains (2-5 operators of every level, some negated): every complete sub-expression gets wrapped
+                toks_ = [rnd.choice(["a", "x", "1", "f(2)", "[3]"])]
+                for i_ in range(rnd.randint(2, 5)):
+                    op_ = rnd.choice(sorted(ref.BUILTIN_INFIX))
+                    if rnd.random() < 0.3 and op_ not in ref.BUILTIN_PREFIX:
+                        toks_.append("not")
+                    toks_ += [op_, rnd.choice(["b", "c", "d", "2", "g(y)", "[1, 2]"])]
+                try:
+                    t = ref.rparse(ref.rtok(" ".join(toks_)))
+                except (ref.Abstain, ref.ParseError, ref.LexError):
+                    pass
             vs = variants_generated(rnd, t)
             groups.append((t, vs))
         steps = []
